@@ -10,4 +10,5 @@ def run(tier, seed):
     c.bounds = {'sequence_length': '0..3 (quick) / 0..5 (thorough)', 'rhs_length': '0..4', 'indices_and_bounds': 'all of i64 (no bound)', 'templates': len(ts)}
     c.outside = ['sequences longer than the stated lengths']
     c.run_family('seq', ts, ('exit', 'stdout', 'stderr-empty', 'panic', 'hang'), seq.role)
+    c.run_random(('exit', 'stdout', 'stderr-empty', 'panic', 'hang'))
     return c.finish()
